@@ -651,4 +651,13 @@ MODULES["Roots"] = dict(
         # laguer: MR / MT / MAXIT are compile-time constants (substituted), EPS = f64::EPSILON = reps RA, the table frac[] is
         # the model's rfrac RA (its nine values are tied by gen/Params.v: LAGUER_FRAC)
         dict(name="laguer", file=P_MOD, impl=RT_IMPL, fn="laguer", arrays={"frac": ("(rfrac RA)", 9)}),
+        # poly_solve: its callees are the model functions (each proved equal to its own source above); Self::laguer with its
+        # three `&mut` operands is the model's laguer with the trace projected away
+        dict(name="poly_solve", file=P_MOD, impl=RT_IMPL, fn="poly_solve"),
     ])
+_RT_PATHS.update({
+    ("Polynomial::quadratic_solve", 3): dict(g="quadratic_solve RA {0} {1} {2}", ret="cvec", fallible=True, args=["celem"] * 3),
+    ("Polynomial::cubic_solve", 4): dict(g="cubic_solve RA {0} {1} {2} {3}", ret="cvec", fallible=True, args=["celem"] * 4),
+    ("Self::laguer", 3): dict(g="(let* l := laguer RA {0} {1} in Ok ({0}, lx l, liters l))", ret="unit", fallible=True,
+                              out=["arg0", "arg1", "arg2"], args=["cvec", "celem", "usize"]),
+})
